@@ -33,6 +33,29 @@ def check(repo, rep):
             # what that code delivers was not decided
             other = sorted({e[1][1][2] for e in l.effects if e[0] == 'call' and e[1][0] == 'call' and e[1][1][0] == 'attr' and e[1][1][1] == ('self',) and ('p', 'data_source') in e[1][2]})
             modes['uncovered'] = modes.get('uncovered', 0) + 1
+            # what CAN be decided about such a second driver: the end of the stream is the value None -- a frame that is merely falsy
+            # (an empty block, 0, an empty array) is a frame
+            if not modes.get('uncovered_scanned'):
+                modes['uncovered_scanned'] = 1
+                tcls = cx.cls('core', 'StreamTokenizer')
+                todo, seen_ = ['tokenize'], set()
+                while todo:
+                    mn_ = todo.pop()
+                    r_ = cx.model.find_method('core', tcls, mn_)
+                    if r_ is None or mn_ in seen_ or mn_ == gen_name:
+                        continue
+                    seen_.add(mn_)
+                    fn_ = r_[2]
+                    todo += [c_.func.attr for c_ in ast.walk(fn_) if isinstance(c_, ast.Call) and isinstance(c_.func, ast.Attribute) and isinstance(c_.func.value, ast.Name) and c_.func.value.id == 'self']
+                    frames_ = {t_.id for a_ in ast.walk(fn_) if isinstance(a_, (ast.Assign, ast.NamedExpr)) and isinstance(a_.value, ast.Call) and isinstance(a_.value.func, ast.Attribute) and a_.value.func.attr == 'read'
+                               for t_ in (a_.targets if isinstance(a_, ast.Assign) else [a_.target]) if isinstance(t_, ast.Name)}
+                    for n_ in ast.walk(fn_):
+                        if isinstance(n_, (ast.While, ast.If)):
+                            t_ = n_.test
+                            t_ = t_.operand if isinstance(t_, ast.UnaryOp) and isinstance(t_.op, ast.Not) else t_
+                            if isinstance(t_, ast.Name) and t_.id in frames_:
+                                rep.ob('a driver loop outside the token generator ends the stream on None only (a falsy frame is a frame)', False, cx.where(r_[0], n_), 'StreamTokenizer.%s:falsy-frame-ends-stream' % mn_,
+                                       'the value read from the source is tested by truth value: %s' % ast.unparse(n_.test)[:60])
             rep.unknown('StreamTokenizer.tokenize: a path serves its caller without the token generator%s (through %s); that code is not covered by the tokenizer analysis' % (' ' + gen_name if gen_name else '', other or 'nothing recognised'))
             continue
         rep.ob('tokenize() creates the token generator exactly once per call', len({id(e[3]) for e in gens}) == 1, where, 'StreamTokenizer.tokenize:one-generator',
